@@ -23,6 +23,7 @@ func loggedOn(role int, st *memory.Storage) *fx {
 		f := newAcceptor(st, 1, 60, 0, "0")
 		out := f.logon("CLI", "SRV", 1, 30)
 		zz.Assume(len(out) >= 1)
+		f.relog(role, 30)
 		return f
 	}
 	f := newInitiator(st, 30, "0", "user", "pw", 0)
@@ -30,12 +31,39 @@ func loggedOn(role int, st *memory.Storage) *fx {
 	lg := fixgen.CreateLogon("0", 30)
 	setHdr(lg.Header(), "SRV", "CLI", 1)
 	_ = f.serve(wire(lg))
+	f.relog(role, 30)
 	return f
 }
 
+// fxRelog > 0: the logged-on pre-state is that of a second logon on the same session - the peer
+// logged out (Logout exchange) and on again over the same connection. Harnesses set it from a
+// parameter; timer and goroutine indexes of the logon in force then start at 2*fxRelog.
+var fxRelog = 0
+
+func (f *fx) relog(role, hb int) {
+	if fxRelog == 0 || !f.s.IsLogged() {
+		return
+	}
+	peer, me := "CLI", "SRV"
+	if role == 1 {
+		peer, me = "SRV", "CLI"
+	}
+	lo := fixgen.CreateLogout()
+	setHdr(lo.Header(), peer, me, 2)
+	_ = f.serve(wire(lo))
+	zz.Assume(!f.s.IsLogged())
+	_ = f.logon(peer, me, 3, hb)
+	zz.Assume(f.s.IsLogged())
+	_ = f.h.VerifOut()
+	for k := range f.events {
+		delete(f.events, k)
+	}
+}
+
 // H_C14_echo: a logged-on session answers a TestRequest with exactly one Heartbeat echoing the ID.
-// params: [role, idLen, pre (0 logged, 1 waiting for a TestRequest answer), seqClass]
+// params: [role, idLen, pre (0 logged, 1 waiting for a TestRequest answer), seqClass, relog (1: second logon on the same session)]
 func H_C14_echo() {
+	fxRelog = zz.Param(4)
 	f := loggedOn(zz.Param(0), memory.NewStorage())
 	zz.Assert(f.s.IsLogged(), "fixture: logon failed")
 	if zz.Param(2) == 1 {
